@@ -16,6 +16,7 @@ def regenerate_all():
     import gen_rngsites
     import gen_snapshots
     import gen_kernels
+    import gen_hcalls
     steps = [("tables", lambda: gen.regenerate(None)), ("callsites", lambda: gen_callsites.regenerate(None)),
              ("radius", lambda: gen_radius.regenerate(None)), ("booksites", lambda: gen_booksites.regenerate(None)),
              ("bookcalls", lambda: gen_bookcalls.regenerate(None)), ("exitsites", lambda: gen_exitsites.regenerate(None)),
@@ -23,7 +24,7 @@ def regenerate_all():
              ("kernels", lambda: gen_kernels.regenerate(None)), ("model-decisions", lambda: gen_kernels.regenerate_model(None)),
              ("clip", lambda: gen_kernels.regenerate_clip(None)), ("dykstra", lambda: gen_kernels.regenerate_dykstra(None)),
              ("loops", lambda: gen_kernels.regenerate_loops(None)), ("guards", lambda: gen_kernels.regenerate_guards(None)),
-             ("trproj", lambda: gen_kernels.regenerate_trproj(None))]
+             ("trproj", lambda: gen_kernels.regenerate_trproj(None)), ("hcalls", lambda: gen_hcalls.regenerate(None))]
     for name, fn in steps:
         try:
             fn()
